@@ -648,7 +648,8 @@ def cancel_oracle(obs, x, how, not_started=False, targeted=True):
             final_task = 'DeleteObjectTask'
         ce = [e for e in obs.events if e['kind'] == 'cancel.end']
         if final_task and ce and targeted:
-            fs = [e['n'] for e in obs.events if e['kind'] == 'exec.start' and e.get('task') == final_task and e.get('tid') == x.idx]
+            tid = x.future.meta.transfer_id if x.future is not None else x.idx
+            fs = [e['n'] for e in obs.events if e['kind'] == 'exec.start' and e.get('task') == final_task and e.get('tid') == tid]
             if fs and min(fs) > ce[0]['n']:
                 out.append(V(f'{x.label}: the cancel call ({how}) had returned before the final task {final_task} was even started, yet the '
                              f'transfer ran on and reported success', **mech, sym='cancel-ineffective'))
